@@ -16,6 +16,7 @@ import (
 	"path/filepath"
 	"strconv"
 	"strings"
+	"sync"
 	"time"
 
 	"github.com/varlink/go/varlink"
@@ -25,6 +26,19 @@ import (
 type addrCase struct {
 	Hist string   `json:"hist"`
 	Addr []string `json:"addr"`
+}
+
+var ipv6Once sync.Once
+var ipv6OK bool
+
+func haveIPv6Loopback() bool {
+	ipv6Once.Do(func() {
+		if l, err := net.Listen("tcp", "[::1]:0"); err == nil {
+			l.Close()
+			ipv6OK = true
+		}
+	})
+	return ipv6OK
 }
 
 func freePort() int {
@@ -53,6 +67,8 @@ func (s *addrSubst) concrete(tokens []string) string {
 			out += s.name
 		case "H":
 			out += "127.0.0.1"
+		case "H6":
+			out += "[::1]"
 		case "PORT":
 			out += strconv.Itoa(s.port)
 		case "BADH":
@@ -90,7 +106,11 @@ func runAddrCase(c *addrCase, tmp string) tr.M {
 	sub := &addrSubst{abs: filepath.Join(tmp, fmt.Sprintf("s%d.sock", addrSeq)), rel: fmt.Sprintf("rel%d.sock", addrSeq),
 		name: fmt.Sprintf("verif-addr-%d-%d", os.Getpid(), addrSeq), port: freePort()}
 	s := sub.concrete(c.Addr)
-	obs := tr.M{"out": "", "reached": false, "file_after_bind": false, "file_after_shutdown": false, "again": "ok", "concrete": s}
+	obs := tr.M{"out": "", "reached": false, "file_after_bind": false, "file_after_shutdown": false, "again": "ok", "concrete": s, "skip": false}
+	if strings.Contains(s, "[::1]") && !haveIPv6Loopback() {
+		obs["skip"] = true
+		return obs
+	}
 	ctx, cancel := context.WithTimeout(context.Background(), 5*time.Second)
 	defer cancel()
 	if c.Hist == "client" {
